@@ -40,10 +40,13 @@ CLAIMED = {
          "environment and unbinds parameters on all paths. Aggregates/casts are not decided.",
          "Trusted: rustc MIR, syn, u64::checked_* and num-bigint semantics, spec/const_ops.txt, spec/c06_sites.txt.",
          "DESIGN.md §3 C06"),
- "C07": ("E-TAB", "other", "SPEC check of the transform_operator! rewrite table against identities valid for every operand value",
-         "Decides that every algebraic rewrite and fold the abstract-instruction constant propagator can apply is valid for all values of "
-         "the unknown operand (definedness included) and uses the VM-agreeing evaluator. The optimizers' dataflow is not decided.",
-         "Trusted: syn; spec/asm_identities.txt written from fuel-asm/fuel-vm 0.66 sources.",
+ "C07": ("E-TAB", "other", "finite-domain evaluation of every rewrite identity of the transform_operator! table against the FuelVM opcode semantics; ISA def/use/effect SPEC; path rules (kill discipline) on the const-indexed-aggregate tracker; who-may-delete rule with a flag-register (def_const_registers) obligation and an adjacency anti-pattern on every pass that removes instructions",
+         "Decides: every algebraic rewrite and fold of the constant propagator is valid for all values of the unknown operand (reverts included) and "
+         "uses the VM-agreeing evaluator; the optimizer's def/use/side-effect tables agree with the ISA; the const-indexed-aggregate tracker records a "
+         "new definition on every defining path, reads before it kills, and compares a version with its own register; every pass that deletes "
+         "instructions (rather than overwriting them with NOOP) accounts for the $of/$err registers the deleted instruction writes through a "
+         "control-flow-aware check, or only deletes unreachable code. The optimizers' dataflow as a whole is not decided.",
+         "Trusted: syn; FuelVM ALU semantics (rules/C07.py VM_SEM, spec/isa.txt) written from fuel-asm/fuel-vm 0.66 sources.",
          "DESIGN.md §3 C07"),
  "C22": ("E-MIR", "proof", "MIR value-provenance: returned order == toposort(Reversed(graph)).map_err(..); edge-direction provenance at every add/update_edge; forward-only consumers",
          "With petgraph's toposort contract the checked facts imply the stated property for every graph: each package once, dependencies "
@@ -55,7 +58,9 @@ CLAIMED = {
          "Decides that every register operand of every VirtualOp is classified read/written exactly as the FuelVM defines (spec/isa.txt), "
          "that coalescing and final assignment map every operand position of the same variant in order, that successor tables never omit a "
          "real edge, that the directed interference graph is only ever read undirected, that try_color wires liveness -> interference -> "
-         "coalescing -> colouring with the values it computed, and that liveness uses live_in = use ∪ (live_out − def) over successors. "
+         "coalescing -> colouring with the values it computed, that liveness uses live_in = use ∪ (live_out − def) over successors, that "
+         "coalescing uses only resolved representatives after union-find resolution and keeps a MOVE whose reset of $of/$err is observed, and that "
+         "every spilled def is stored / use refilled on all paths. "
          "Necessary conditions for 'no two simultaneously live registers share a machine register'; the colouring/spilling algorithm is not decided.",
          "Trusted: syn; rustc MIR; petgraph; spec/isa.txt written from the FuelVM ISA and fuel-asm/fuel-vm 0.66.4.",
          "DESIGN.md §3 C08"),
@@ -156,7 +161,8 @@ CLAIMED = {
  "C26": ("E-MIR+E-TAB", "other", "MIR FIELDS + self-recursion-over-dependencies rules on the two cache-validity predicates; guard-edge dominance at the reuse sites; comparison-direction SPEC (syn)",
          "Decides: both validity predicates consult every staleness field of a cache entry, conjoin their own check with a recursive check of "
          "every recorded dependency (validity is transitive), compare versions as `file version <= cached version`, and cached Programs / typed "
-         "modules are returned only on the true edge of the corresponding predicate for the same path. Equality of a reused result with a fresh "
+         "modules are returned only on the true edge of the corresponding predicate for the same path; the LSP commits cache changes only after a "
+         "compilation that produced a program. Equality of a reused result with a fresh "
          "compilation (garbage collection of engines, diagnostics replay) is not decided.",
          "Trusted: rustc MIR; syn; dependencies lists are complete.",
          "DESIGN.md §3 C26"),
